@@ -360,7 +360,7 @@ def ref_sig(N, d):
 # C10
 # ==========================================================================================
 @both_log_levels
-def run_c10(chk, prog):
+def _run_c10(chk, prog):
     chk.notes.append("A8: the automaton of each of Sign's six public operations is extracted from MIR (nodes = bus-call sites x call stack x attempt counter; the reply is a fresh symbol; "
                      "edges carry the code's own tests) and compared by bisimulation with the documented protocol (DESIGN.md Appendix C) for all 48 abstract replies at every node.")
     total_nodes = 0
@@ -605,7 +605,7 @@ def transfer_invariants(chk, c, name):
 # C09
 # ==========================================================================================
 @both_log_levels
-def run_c09(chk, prog):
+def _run_c09(chk, prog):
     chk.notes.append("A8 + A3 on the transfer routine reached from configure and send_pages: SendData only after the own-address ack of the matching request; per item the chunk iterator is "
                      "item.chunks(N).enumerate(), the offset is trunc16(i*N) of that same enumerate and the data is Data::try_new of that same chunk, N = 16; the counter is 0 after the ack, "
                      "+1 after each accepted SendData and is what DataChunksSent announces; the result query follows; configure sends once(sign_type.to_bytes()), send_pages maps pages to as_bytes.")
@@ -743,6 +743,8 @@ def senddata_shape(m):
     if not (d[0] == "adt" and d[1].endswith("frame::Data") and d[4][0][0] == "adt" and d[4][0][3] == "Borrowed"):
         return "data %s is not Data::try_new(chunk)" % fmt_term(d)
     src = d[4][0][4][0]
+    while src[0] == "ref" and src[1][0] == "val" and not src[1][2] and src[1][1][0] == "proj" and src[1][1][2] == ("deref",):
+        src = src[1][1][1]          # `&*chunk`: the reborrow made when the chunk is passed on to a helper
     if not (src[0] == "item" and strip_loc(src[1]) == strip_loc(ch)):
         return "the data %s is not the chunk paired with the index" % fmt_term(src)
     return None
@@ -885,3 +887,21 @@ def expects_reply_kinds(prog, log_on=False):
                 if any(s not in (("err_unexpected",),) for s, d, e in ss):
                     kinds.add(sig[0])
     return kinds
+
+
+def run_c09(chk, prog):
+    _run_c09(chk, prog)
+    # what an item *is* lies outside the transfer routine: a page's bytes are Page::as_bytes of a buffer of the documented length
+    # (C07.O1/O3), the configuration block is SignType::to_bytes (C19.O1: the 16-byte table); both are legs of this property
+    import p_page, p_signtype
+    n = chk.include("C09.page", p_page.run_c07, prog, keep=lambda r: r.startswith("C07.O1") or r.startswith("C07.O3"))
+    n += chk.include("C09.block", p_signtype.run_c19_tables, prog, keep=lambda r: r.startswith("C19.O1"))
+    chk.floor("C09.items", "obligations on what is transferred (page bytes C07.O1/O3, configuration block C19.O1)", n, 10)
+
+
+def run_c10(chk, prog):
+    _run_c10(chk, prog)
+    # the automaton abstracts the data messages (any number of items and chunks): their contents, offsets and count are C09's
+    # subject, and the bytes of a page C07's; the prescribed message sequence includes them
+    n = chk.include("C10.data", run_c09, prog)
+    chk.floor("C10.data", "obligations on the data messages of a transfer (C09, with C07.O1/O3 and C19.O1)", n, 100)
